@@ -500,7 +500,7 @@ fn chained_case(ctx: &Ctx, ch: &mut Ch) -> Outcome {
 }
 
 pub fn def(tier: Tier) -> CheckDef {
-    let rounds = tier.pick(8, 120);
+    let rounds = tier.pick(60, 600);
     CheckDef {
         id: "C12",
         level: "exploration",
@@ -508,6 +508,7 @@ pub fn def(tier: Tier) -> CheckDef {
         assumptions: vec!["when unify returns false nothing is demanded (higher-order and non-pattern cases are legitimately given up)"],
         idle_limit_s: 120,
         needs_cli: false,
+        fuzz: None,
         parts: vec![
             Part {
                 name: "patterns",
@@ -515,7 +516,7 @@ pub fn def(tier: Tier) -> CheckDef {
                 run: Box::new(|ctx, r| ctx.prop("patterns", r, 400, 700, pattern_case)),
                 replay: Some(Box::new(|ctx, inp| match inp {
                     ReplayInput::Choices(c) => pattern_case(ctx, &mut Ch::new(c)),
-                    ReplayInput::Text(_) => Err(Failure::new("this part replays from choices", "")),
+                    _ => Err(Failure::new("this part replays from choices", "")),
                 })),
             },
             Part {
@@ -524,7 +525,7 @@ pub fn def(tier: Tier) -> CheckDef {
                 run: Box::new(|ctx, r| ctx.prop("chained", r, 200, 8, chained_case)),
                 replay: Some(Box::new(|ctx, inp| match inp {
                     ReplayInput::Choices(c) => chained_case(ctx, &mut Ch::new(c)),
-                    ReplayInput::Text(_) => Err(Failure::new("this part replays from choices", "")),
+                    _ => Err(Failure::new("this part replays from choices", "")),
                 })),
             },
             Part {
@@ -533,7 +534,7 @@ pub fn def(tier: Tier) -> CheckDef {
                 run: Box::new(|ctx, r| ctx.prop("occurs", r, 200, 16, occurs_case)),
                 replay: Some(Box::new(|ctx, inp| match inp {
                     ReplayInput::Choices(c) => occurs_case(ctx, &mut Ch::new(c)),
-                    ReplayInput::Text(_) => Err(Failure::new("this part replays from choices", "")),
+                    _ => Err(Failure::new("this part replays from choices", "")),
                 })),
             },
         ],
